@@ -14,9 +14,9 @@ import (
 // OracleC05 — the staked-token ledger is always backed by the staking pools.
 type OracleC05 struct {
 	counters
-	returned  int64            // entries returned so far (the stated one-unit-per-entry allowance)
-	prevRec   map[string]math.Int // "D"/"F"+hashId -> Total
-	prevOrig  map[string]int
+	returned int64               // entries returned so far (the stated one-unit-per-entry allowance)
+	prevRec  map[string]math.Int // "D"/"F"+hashId -> Total
+	prevOrig map[string]int
 }
 
 func NewOracleC05() *OracleC05 {
